@@ -1,1 +1,1420 @@
-(* C01 - to be filled *)
+(* C01: lemmas.  Builds on the correspondence between emit_sff and the description of Spec/C01.v
+   proved in Proofs/C02.v. *)
+From Slinky Require Import Model.Types Model.Runtime Model.Style Model.Script Model.Writer Model.LdSem.
+From Slinky Require Import Spec.C09 Spec.C05 Spec.C02.
+From Slinky Require Import Proofs.LdLemmas Proofs.C06 Proofs.C18 Proofs.C09 Proofs.C05 Proofs.C02.
+From Coq Require Import Lia ZArith Sorted Permutation.
+
+(* ====================================================================== *)
+(* [here], spelled out                                                     *)
+(* ====================================================================== *)
+
+Lemma insert_sorted_perm le x l : Permutation (insert_sorted le x l) (x :: l).
+Proof.
+  induction l as [|y r IH]; simpl; [apply Permutation_refl|].
+  destruct (le x y); [apply Permutation_refl|].
+  eapply Permutation_trans; [apply perm_skip; exact IH | apply perm_swap].
+Qed.
+
+Lemma sort_by_perm le l : Permutation (sort_by le l) l.
+Proof.
+  induction l as [|x r IH]; simpl; [apply Permutation_refl|].
+  eapply Permutation_trans; [apply insert_sorted_perm | apply perm_skip; exact IH].
+Qed.
+
+Lemma lookup_none_iff {A} k (l : list (string * A)) : lookup k l = None <-> ~ In k (map fst l).
+Proof.
+  induction l as [|[k' v] r IH]; simpl; [tauto|].
+  destruct (String.eqb k k') eqn:E.
+  - apply String.eqb_eq in E. subst. split; [discriminate | intro H; exfalso; apply H; auto].
+  - apply String.eqb_neq in E. rewrite IH. split; [intros H [H1|H1]; [congruence | auto] | tauto].
+Qed.
+
+Lemma lookup_in {A} k (l : list (string * A)) v : lookup k l = Some v -> In (k, v) l.
+Proof.
+  induction l as [|[k' v'] r IH]; simpl; [discriminate|].
+  destruct (String.eqb k k') eqn:E.
+  - apply String.eqb_eq in E. intro H. inversion H; subst. auto.
+  - auto.
+Qed.
+
+(* the list [here] is sorted from *)
+Definition here_raw (f : file_info) (section : string) : list string :=
+  (if is_some (lookup section (fi_section_order f)) then [] else [section]) ++
+  map fst (filter (fun kv => String.eqb (snd kv) section) (fi_section_order f)).
+
+Lemma here_perm sections f section :
+  Permutation (here sections f section)
+              (match fi_section_order f with [] => [section] | _ => here_raw f section end).
+Proof.
+  unfold here, sections_here, here_raw. destruct (fi_section_order f) as [|p r]; [apply Permutation_refl|].
+  apply sort_by_perm.
+Qed.
+
+Lemma in_here_raw f section k :
+  In k (here_raw f section) <->
+  (k = section /\ lookup section (fi_section_order f) = None) \/ In (k, section) (fi_section_order f).
+Proof.
+  unfold here_raw. rewrite in_app_iff. split.
+  - intros [H|H].
+    + destruct (lookup section (fi_section_order f)); simpl in H; [contradiction|].
+      destruct H as [H|[]]. left. auto.
+    + apply in_map_iff in H. destruct H as [[k' d] [E H]]. simpl in E. subst.
+      apply filter_In in H. destruct H as [H E]. simpl in E. apply String.eqb_eq in E. subst. right. exact H.
+  - intros [[E H]|H].
+    + left. rewrite H. simpl. auto.
+    + right. apply in_map_iff. exists (k, section). split; [reflexivity|]. apply filter_In. split; [exact H|].
+      simpl. apply String.eqb_refl.
+Qed.
+
+Lemma in_here sections f section k : In k (here sections f section) <-> here_spec f section k.
+Proof.
+  unfold here_spec.
+  split; intro H.
+  - apply (Permutation_in _ (here_perm sections f section)) in H.
+    destruct (fi_section_order f) as [|p r] eqn:E; [destruct H as [H|[]]; auto|].
+    rewrite <- E. apply in_here_raw. exact H.
+  - apply (Permutation_in _ (Permutation_sym (here_perm sections f section))).
+    destruct (fi_section_order f) as [|p r] eqn:E; [left; auto|].
+    rewrite <- E in H. apply in_here_raw. exact H.
+Qed.
+
+(* ====================================================================== *)
+(* C01_nothing_unlisted                                                    *)
+(* ====================================================================== *)
+
+Section Unlisted.
+  Variable rt : runtime.
+  Variable sty : style.
+  Variable cfg : wcfg.
+  Variable seg : segment.
+  Variable sections : list string.
+
+  (* every section of an expansion is reached from the section asked for *)
+  Lemma expands_reaches f :
+    (forall s l, Expands cfg seg sections f s l -> forall k, In k l -> Reaches cfg seg sections f s k) /\
+    (forall ks l, ExpandsKeys cfg seg sections f ks l ->
+                  forall k, In k l -> In k ks \/ exists k0 s, In k0 ks /\ In s (entry_members cfg seg f k0) /\
+                                                            Reaches cfg seg sections f s k) /\
+    (forall ms l, ExpandsMembers cfg seg sections f ms l ->
+                  forall k, In k l -> exists s, In s ms /\ Reaches cfg seg sections f s k).
+  Proof.
+    apply Expands_mutind.
+    - intros section l _ IH k Hk. destruct (IH k Hk) as [H|[k0 [s [H1 [H2 H3]]]]].
+      + apply Reach_here. exact H.
+      + eapply Reach_member; eassumption.
+    - intros k [].
+    - intros k ks l1 l2 _ IH1 _ IH2 x Hx. destruct Hx as [Hx|Hx]; [subst; left; left; reflexivity|].
+      apply in_app_iff in Hx. destruct Hx as [Hx|Hx].
+      + destruct (IH1 x Hx) as [s [Hs Hr]]. right. exists k, s. split; [left; reflexivity|]. auto.
+      + destruct (IH2 x Hx) as [H|[k0 [s [H1 [H2 H3]]]]]; [left; right; exact H|].
+        right. exists k0, s. split; [right; exact H1|]. auto.
+    - intros k [].
+    - intros s ss l1 l2 _ IH1 _ IH2 x Hx. apply in_app_iff in Hx. destruct Hx as [Hx|Hx].
+      + exists s. split; [left; reflexivity | apply IH1; exact Hx].
+      + destruct (IH2 x Hx) as [s' [Hs Hr]]. exists s'. split; [right; exact Hs | exact Hr].
+  Qed.
+
+  Local Notation NL := (names_leaf rt seg).
+  Local Notation RV := (reach_via cfg seg sections).
+
+  Definition unl_entry (f : file_info) (section base : string) (l : list stmt) : Prop :=
+    forall s, In s l -> is_input s = true ->
+      exists c b anc, In (c, b, anc) (leaves rt base f) /\ NL c b (input_section s) s /\
+                      RV anc section (input_section s).
+
+  Definition unl_file (f : file_info) (k base : string) (l : list stmt) : Prop :=
+    forall s, In s l -> is_input s = true ->
+      exists c b rest, In (c, b, f :: rest) (leaves rt base f) /\ NL c b (input_section s) s /\
+                       RV rest k (input_section s).
+
+  Definition unl_keys (f : file_info) (keys : list string) (base : string) (l : list stmt) : Prop :=
+    forall s, In s l -> is_input s = true ->
+      exists k, In k keys /\
+      exists c b rest, In (c, b, f :: rest) (leaves rt base f) /\ NL c b (input_section s) s /\
+                       RV rest k (input_section s).
+
+  Definition unl_kids (files : list file_info) (k base : string) (l : list stmt) : Prop :=
+    forall s, In s l -> is_input s = true ->
+      exists c0, In c0 files /\
+      exists c b anc, In (c, b, anc) (leaves rt base c0) /\ NL c b (input_section s) s /\
+                      RV anc k (input_section s).
+
+  Lemma leaves_leaf f base :
+    should_emit rt (fi_conds f) = true -> (fi_kind f = KObject \/ fi_kind f = KArchive) ->
+    leaves rt base f = [(f, base, [f])].
+  Proof. destruct f. simpl. intros H [E|E]; rewrite H, E; reflexivity. Qed.
+
+  Lemma leaves_group f base d c0 c b anc :
+    should_emit rt (fi_conds f) = true -> fi_kind f = KGroup -> escape_path rt (fi_dir f) = Ok d ->
+    In c0 (fi_files f) -> In (c, b, anc) (leaves rt (push base d) c0) ->
+    In (c, b, f :: anc) (leaves rt base f).
+  Proof.
+    destruct f. simpl. intros H E Hd Hc0 Hin. rewrite H, E, Hd.
+    apply in_map_iff. exists (c, b, anc). split; [reflexivity|]. apply in_flat_map. exists c0. auto.
+  Qed.
+
+  Lemma unlisted_all :
+    (forall f section base l, EntryStmts rt sty cfg seg sections f section base l -> unl_entry f section base l) /\
+    (forall f keys base l, KeysStmts rt sty cfg seg sections f keys base l -> unl_keys f keys base l) /\
+    (forall f k base l, FileStmts rt sty cfg seg sections f k base l -> unl_file f k base l) /\
+    (forall files k base l, KidsStmts rt sty cfg seg sections files k base l -> unl_kids files k base l).
+  Proof.
+    apply EntryStmts_mutind.
+    - (* entry *)
+      intros f section base keys l HX _ IH s Hs Hi.
+      destruct (IH s Hs Hi) as [k [Hk [c [b [rest [Hl [Hn Hr]]]]]]].
+      exists c, b, (f :: rest). split; [exact Hl|]. split; [exact Hn|].
+      simpl. exists k. split; [|exact Hr]. destruct (expands_reaches f) as [H _]. eapply H; eassumption.
+    - intros f base s [].
+    - (* keys *)
+      intros f k ks base l1 l2 _ IH1 _ IH2 s Hs Hi. apply in_app_iff in Hs. destruct Hs as [Hs|Hs].
+      + destruct (IH1 s Hs Hi) as [c [b [rest H]]]. exists k. split; [left; reflexivity|]. exists c, b, rest. exact H.
+      + destruct (IH2 s Hs Hi) as [k' [Hk' H]]. exists k'. split; [right; exact Hk' | exact H].
+    - intros f k base _ s [].
+    - (* leaf *)
+      intros f k base He Hk Hp s Hs Hi. unfold own_stmts in Hs. unfold path_ok in Hp.
+      destruct (fi_kind f) eqn:Ek; try contradiction.
+      + destruct Hp as [p Ep]. rewrite Ep in Hs. destruct Hs as [Hs|[]]. subst s.
+        exists f, base, []. split; [rewrite leaves_leaf by auto; left; reflexivity|].
+        split; [|reflexivity]. exists p. split; [exact Ep|]. unfold member_of. rewrite Ek. reflexivity.
+      + destruct Hp as [p Ep]. rewrite Ep in Hs. destruct Hs as [Hs|[]]. subst s.
+        exists f, base, []. split; [rewrite leaves_leaf by auto; left; reflexivity|].
+        split; [|reflexivity]. exists p. split; [exact Ep|]. unfold member_of. rewrite Ek. reflexivity.
+      + destruct (String.eqb (fi_section f) k); [destruct Hs as [Hs|[]]; subst s; discriminate | contradiction].
+      + destruct (String.eqb (fi_section f) k); [destruct Hs as [Hs|[]]; subst s; discriminate | contradiction].
+    - (* group *)
+      intros f k base d l He Hk Hd _ IH s Hs Hi.
+      destruct (IH s Hs Hi) as [c0 [Hc0 [c [b [anc [Hl [Hn Hr]]]]]]].
+      exists c, b, anc. split; [eapply leaves_group; eassumption|]. auto.
+    - intros k base s [].
+    - (* kids *)
+      intros c r k base l1 l2 _ IH1 _ IH2 s Hs Hi. apply in_app_iff in Hs. destruct Hs as [Hs|Hs].
+      + exists c. split; [left; reflexivity|]. apply IH1; assumption.
+      + destruct (IH2 s Hs Hi) as [c0 [Hc0 H]]. exists c0. split; [right; exact Hc0 | exact H].
+  Qed.
+
+  (* every input statement among the files of a segment for one section names a leaf of the segment's
+     file list, under its accumulated directory, and a section reached from the group's section *)
+  Lemma nothing_unlisted base_path section ws l ws' :
+    emit_section rt sty cfg seg sections base_path section ws = Ok (l, ws') ->
+    exists b, forall s, In s l -> is_input s = true ->
+      exists c0, In c0 (sg_files seg) /\
+      exists c bc anc, In (c, bc, anc) (leaves rt b c0) /\ NL c bc (input_section s) s /\
+                       RV anc section (input_section s).
+  Proof.
+    intro H. apply emit_section_sound in H. destruct H as [b [_ HK]]. exists b.
+    destruct unlisted_all as [_ [_ [_ Hkids]]]. exact (Hkids _ _ _ _ HK).
+  Qed.
+End Unlisted.
+
+(* ====================================================================== *)
+(* each configured section exactly once: the sub-group forest              *)
+(* ====================================================================== *)
+
+Lemma nodup_app {A} (l1 l2 : list A) :
+  NoDup l1 -> NoDup l2 -> (forall x, In x l1 -> In x l2 -> False) -> NoDup (l1 ++ l2).
+Proof.
+  intros H1 H2 Hd. induction H1 as [|x r Hx Hr IH]; simpl; [exact H2|].
+  constructor.
+  - intro H. apply in_app_iff in H. destruct H as [H|H]; [contradiction|]. apply (Hd x); [left; reflexivity | exact H].
+  - apply IH. intros y Hy. apply Hd. right. exact Hy.
+Qed.
+
+Section Forest.
+  Variable cfg : wcfg.
+  Variable seg : segment.
+  Variable f : file_info.
+
+  Definition child (k m : string) : Prop := In m (members cfg seg k).
+
+  (* proper descendants *)
+  Inductive anc : string -> string -> Prop :=
+  | anc_child a x : child a x -> anc a x
+  | anc_step a p x : anc a p -> child p x -> anc a x.
+
+  Variable rank : string -> nat.
+  Hypothesis Hrank : forall k m, child k m -> (rank m < rank k)%nat.
+  Hypothesis Huniq : forall p1 p2 x, child p1 x -> child p2 x -> p1 = p2.
+  Hypothesis HnodupM : forall k, NoDup (members cfg seg k).
+
+  Lemma anc_rank a b : anc a b -> (rank b < rank a)%nat.
+  Proof. induction 1 as [a x H|a p x H IH Hc]; [apply Hrank; exact H | apply Hrank in Hc; lia]. Qed.
+
+  Lemma anc_irrefl a : ~ anc a a.
+  Proof. intro H. apply anc_rank in H. lia. Qed.
+
+  Lemma anc_left a p x : child a p -> anc p x -> anc a x.
+  Proof.
+    intros Hc H. induction H as [p x H|p q x H IH Hq].
+    - eapply anc_step; [apply anc_child; exact Hc | exact H].
+    - eapply anc_step; [apply IH; exact Hc | exact Hq].
+  Qed.
+
+  Lemma anc_linear a x : anc a x -> forall b, anc b x -> a = b \/ anc a b \/ anc b a.
+  Proof.
+    induction 1 as [a x H|a p x H IH Hc]; intros b Hb.
+    - inversion Hb as [b' x' Hb'|b' q x' Hbq Hq]; subst.
+      + left. eapply Huniq; eassumption.
+      + right; right. rewrite (Huniq a q x H Hq). exact Hbq.
+    - inversion Hb as [b' x' Hb'|b' q x' Hbq Hq]; subst.
+      + right; left. rewrite (Huniq b p x Hb' Hc). exact H.
+      + rewrite (Huniq q p x Hq Hc) in Hbq. apply IH. exact Hbq.
+  Qed.
+
+  Lemma anc_last a x : anc a x -> exists p, child p x /\ (a = p \/ anc a p).
+  Proof. inversion 1; subst; eauto. Qed.
+
+  Definition closed (l : list string) : Prop := forall p x, In p l -> child p x -> In x l.
+  Definition sound_from (ks l : list string) : Prop :=
+    forall x, In x l -> exists k, In k ks /\ (x = k \/ anc k x).
+  Definition indep (ks : list string) : Prop := forall a b, In a ks -> In b ks -> ~ anc a b.
+
+  Lemma siblings_indep k : indep (members cfg seg k).
+  Proof.
+    intros a b Ha Hb H. destruct (anc_last a b H) as [p [Hp Hap]].
+    assert (p = k) by (eapply Huniq; eassumption). subst p.
+    pose proof (Hrank k a Ha). destruct Hap as [E|E]; [subst; lia | apply anc_rank in E; lia].
+  Qed.
+
+  Variable sections : list string.
+  Hypothesis Hid : forall p m, child p m -> here sections f m = [m].
+  (* f is not a group: it expands the sub-groups of the table *)
+  Hypothesis Hleaf : fi_kind f <> KGroup.
+
+  Lemma entry_members_leaf k : entry_members cfg seg f k = members cfg seg k.
+  Proof. unfold entry_members. destruct (fi_kind f); try reflexivity. contradiction. Qed.
+
+  Definition good_keys (ks l : list string) : Prop :=
+    closed l /\ incl ks l /\ sound_from ks l /\ (NoDup ks -> indep ks -> NoDup l).
+
+  Lemma forest_props :
+    (forall s l, Expands cfg seg sections f s l -> here sections f s = [s] -> good_keys [s] l) /\
+    (forall ks l, ExpandsKeys cfg seg sections f ks l -> good_keys ks l) /\
+    (forall ms l, ExpandsMembers cfg seg sections f ms l ->
+                  (forall m, In m ms -> exists p, child p m) -> good_keys ms l).
+  Proof.
+    apply Expands_mutind.
+    - intros section l _ IH Hh. rewrite Hh in IH. exact IH.
+    - split; [intros p x []|]. split; [intros x []|]. split; [intros x []|]. intros. constructor.
+    - intros k ks l1 l2 _ IH1 _ IH2. rewrite entry_members_leaf in IH1.
+      assert (Hpar : forall m, In m (members cfg seg k) -> exists p, child p m) by (intros m Hm; exists k; exact Hm).
+      destruct (IH1 Hpar) as [C1 [I1 [S1 N1]]]. destruct IH2 as [C2 [I2 [S2 N2]]].
+      assert (Hl1 : forall x, In x l1 -> anc k x).
+      { intros x Hx. destruct (S1 x Hx) as [m [Hm [E|E]]]; [subst; apply anc_child; exact Hm|].
+        eapply anc_left; eassumption. }
+      repeat split.
+      + intros p x Hp Hc. destruct Hp as [Hp|Hp].
+        * subst p. right. apply in_app_iff. left. apply I1. exact Hc.
+        * right. apply in_app_iff. apply in_app_iff in Hp. destruct Hp as [Hp|Hp]; [left; eapply C1 | right; eapply C2];
+            eassumption.
+      + intros x [Hx|Hx]; [left; exact Hx|]. right. apply in_app_iff. right. apply I2. exact Hx.
+      + intros x [Hx|Hx].
+        * subst x. exists k. split; [left; reflexivity | left; reflexivity].
+        * apply in_app_iff in Hx. destruct Hx as [Hx|Hx].
+          -- exists k. split; [left; reflexivity | right; apply Hl1; exact Hx].
+          -- destruct (S2 x Hx) as [k' [Hk' H]]. exists k'. split; [right; exact Hk' | exact H].
+      + intros Hnd Hind. inversion Hnd as [|? ? Hk Hks]; subst.
+        assert (Hind2 : indep ks) by (intros a b Ha Hb; apply Hind; right; assumption).
+        constructor.
+        * intro Hx. apply in_app_iff in Hx. destruct Hx as [Hx|Hx].
+          -- apply (anc_irrefl k). apply Hl1. exact Hx.
+          -- destruct (S2 k Hx) as [k' [Hk' [E|E]]]; [subst; contradiction|].
+             apply (Hind k' k); [right; exact Hk' | left; reflexivity | exact E].
+        * apply nodup_app; [apply N1; [apply HnodupM | apply siblings_indep] | apply N2; assumption |].
+          intros x Hx1 Hx2. pose proof (Hl1 x Hx1) as Hkx.
+          destruct (S2 x Hx2) as [k' [Hk' [E|E]]].
+          -- subst x. apply (Hind k k'); [left; reflexivity | right; exact Hk' | exact Hkx].
+          -- destruct (anc_linear k x Hkx k' E) as [E'|[E'|E']].
+             ++ subst. contradiction.
+             ++ apply (Hind k k'); [left; reflexivity | right; exact Hk' | exact E'].
+             ++ apply (Hind k' k); [right; exact Hk' | left; reflexivity | exact E'].
+    - intros _. split; [intros p x []|]. split; [intros x []|]. split; [intros x []|]. intros. constructor.
+    - intros s ss l1 l2 _ IH1 _ IH2 Hpar.
+      assert (Hs : here sections f s = [s]).
+      { destruct (Hpar s (or_introl eq_refl)) as [p Hp]. eapply Hid. exact Hp. }
+      destruct (IH1 Hs) as [C1 [I1 [S1 N1]]].
+      destruct (IH2 (fun m Hm => Hpar m (or_intror Hm))) as [C2 [I2 [S2 N2]]].
+      assert (Hl1 : forall x, In x l1 -> x = s \/ anc s x).
+      { intros x Hx. destruct (S1 x Hx) as [k [[Hk|[]] H]]. subst k. exact H. }
+      repeat split.
+      + intros p x Hp Hc. apply in_app_iff. apply in_app_iff in Hp.
+        destruct Hp as [Hp|Hp]; [left; eapply C1 | right; eapply C2]; eassumption.
+      + intros x [Hx|Hx]; apply in_app_iff; [left; apply I1; left; exact Hx | right; apply I2; exact Hx].
+      + intros x Hx. apply in_app_iff in Hx. destruct Hx as [Hx|Hx].
+        * exists s. split; [left; reflexivity | apply Hl1; exact Hx].
+        * destruct (S2 x Hx) as [k' [Hk' H]]. exists k'. split; [right; exact Hk' | exact H].
+      + intros Hnd Hind. inversion Hnd as [|? ? Hk Hks]; subst.
+        assert (Hind2 : indep ss) by (intros a b Ha Hb; apply Hind; right; assumption).
+        apply nodup_app.
+        * apply N1; [constructor; [intros []|constructor]|]. intros a b [Ha|[]] [Hb|[]]. subst. apply anc_irrefl.
+        * apply N2; assumption.
+        * intros x Hx1 Hx2. destruct (S2 x Hx2) as [s' [Hs' H2]].
+          destruct (Hl1 x Hx1) as [E1|E1]; destruct H2 as [E2|E2].
+          -- subst. contradiction.
+          -- subst x. apply (Hind s' s); [right; exact Hs' | left; reflexivity | exact E2].
+          -- subst x. apply (Hind s s'); [left; reflexivity | right; exact Hs' | exact E1].
+          -- destruct (anc_linear s x E1 s' E2) as [E'|[E'|E']].
+             ++ subst. contradiction.
+             ++ apply (Hind s s'); [left; reflexivity | right; exact Hs' | exact E'].
+             ++ apply (Hind s' s); [right; exact Hs' | left; reflexivity | exact E'].
+  Qed.
+End Forest.
+
+(* ====================================================================== *)
+(* each configured section exactly once: section_order                     *)
+(* ====================================================================== *)
+
+Lemma nodup_map_fst_filter {A B} (g : A * B -> bool) (l : list (A * B)) :
+  NoDup (map fst l) -> NoDup (map fst (filter g l)).
+Proof.
+  induction l as [|x r IH]; simpl; intro H; [constructor|]. inversion H as [|? ? Hx Hr]; subst.
+  destruct (g x); simpl; [|apply IH; exact Hr]. constructor; [|apply IH; exact Hr].
+  intro Hin. apply Hx. apply in_map_iff in Hin. destruct Hin as [y [E Hy]]. apply filter_In in Hy.
+  apply in_map_iff. exists y. split; [exact E | apply Hy].
+Qed.
+
+Lemma nodup_keys_functional {B} (l : list (string * B)) k d1 d2 :
+  NoDup (map fst l) -> In (k, d1) l -> In (k, d2) l -> d1 = d2.
+Proof.
+  induction l as [|[k' d'] r IH]; simpl; intros H H1 H2; [contradiction|]. inversion H as [|? ? Hx Hr]; subst.
+  destruct H1 as [H1|H1]; destruct H2 as [H2|H2].
+  - congruence.
+  - inversion H1; subst. exfalso. apply Hx. apply in_map_iff. exists (k, d2). auto.
+  - inversion H2; subst. exfalso. apply Hx. apply in_map_iff. exists (k, d1). auto.
+  - eapply IH; eassumption.
+Qed.
+
+Lemma here_raw_nodup f section : NoDup (map fst (fi_section_order f)) -> NoDup (here_raw f section).
+Proof.
+  intro H. unfold here_raw. apply nodup_app.
+  - destruct (lookup section (fi_section_order f)); simpl; repeat constructor. intros [].
+  - apply nodup_map_fst_filter. exact H.
+  - intros x Hx1 Hx2. destruct (lookup section (fi_section_order f)) eqn:E; simpl in Hx1; [contradiction|].
+    destruct Hx1 as [Hx1|[]]. subst x. apply lookup_none_iff in E. apply E.
+    apply in_map_iff in Hx2. destruct Hx2 as [y [Ey Hy]]. apply filter_In in Hy.
+    apply in_map_iff. exists y. split; [exact Ey | apply Hy].
+Qed.
+
+Lemma here_nodup sections f section : NoDup (map fst (fi_section_order f)) -> NoDup (here sections f section).
+Proof.
+  intro H. eapply Permutation_NoDup; [apply Permutation_sym; apply here_perm|].
+  destruct (fi_section_order f) as [|p r] eqn:E; [repeat constructor; intros []|].
+  rewrite <- E in *. apply here_raw_nodup. exact H.
+Qed.
+
+Lemma here_spec_cases f section k :
+  here_spec f section k ->
+  (k = section /\ lookup section (fi_section_order f) = None) \/ In (k, section) (fi_section_order f).
+Proof.
+  unfold here_spec. destruct (fi_section_order f) as [|p r]; [|auto]. intro H. left. split; [exact H | reflexivity].
+Qed.
+
+Lemma here_disjoint sec1 sec2 f s1 s2 k :
+  NoDup (map fst (fi_section_order f)) -> In k (here sec1 f s1) -> In k (here sec2 f s2) -> s1 = s2.
+Proof.
+  intros Hnd H1 H2. apply in_here, here_spec_cases in H1. apply in_here, here_spec_cases in H2.
+  destruct H1 as [[E1 N1]|H1]; destruct H2 as [[E2 N2]|H2].
+  - congruence.
+  - subst k. apply lookup_none_iff in N1. exfalso. apply N1. apply in_map_iff. exists (s1, s2). auto.
+  - subst k. apply lookup_none_iff in N2. exfalso. apply N2. apply in_map_iff. exists (s2, s1). auto.
+  - eapply nodup_keys_functional; eassumption.
+Qed.
+
+Lemma here_configured sections seg f s k :
+  WF_section_order seg f -> In s (configured seg) -> In k (here sections f s) -> In k (configured seg).
+Proof.
+  intros [_ Hwf] Hs H. apply in_here, here_spec_cases in H. destruct H as [[E _]|H]; [subst; exact Hs|].
+  apply (Hwf _ _ H).
+Qed.
+
+Lemma here_complete seg f k :
+  WF_section_order seg f -> In k (configured seg) ->
+  exists s, In s (configured seg) /\ forall sections, In k (here sections f s).
+Proof.
+  intros [_ Hwf] Hk. destruct (lookup k (fi_section_order f)) as [d|] eqn:E.
+  - apply lookup_in in E. exists d. split; [apply (Hwf _ _ E)|]. intro sections. apply in_here.
+    unfold here_spec. destruct (fi_section_order f) as [|p r]; [contradiction | right; exact E].
+  - exists k. split; [exact Hk|]. intro sections. apply in_here. unfold here_spec.
+    destruct (fi_section_order f) as [|p r]; [reflexivity | left; auto].
+Qed.
+
+(* ====================================================================== *)
+(* each configured section exactly once: assembly                          *)
+(* ====================================================================== *)
+
+Lemma filter_nil {A} (g : A -> bool) l : (forall x, In x l -> g x = false) -> filter g l = [].
+Proof.
+  induction l as [|x r IH]; intro H; [reflexivity|]. simpl. rewrite (H x (or_introl eq_refl)).
+  apply IH. intros y Hy. apply H. right. exact Hy.
+Qed.
+
+Lemma nodup_app_disjoint {A} (l1 l2 : list A) z : NoDup (l1 ++ l2) -> In z l1 -> ~ In z l2.
+Proof.
+  induction l1 as [|a l1 IH]; simpl; intros H Hz Hz'; [contradiction|]. inversion H as [|? ? Ha Hr]; subst.
+  destruct Hz as [Hz|Hz]; [subst; apply Ha; apply in_app_iff; right; exact Hz' | eapply IH; eassumption].
+Qed.
+
+Lemma nodup_app_l {A} (l1 l2 : list A) : NoDup (l1 ++ l2) -> NoDup l1.
+Proof.
+  induction l1 as [|a l1 IH]; simpl; intro H; [constructor|]. inversion H as [|? ? Ha Hr]; subst.
+  constructor; [intro Hin; apply Ha; apply in_app_iff; left; exact Hin | apply IH; exact Hr].
+Qed.
+
+Lemma nodup_app_r {A} (l1 l2 : list A) : NoDup (l1 ++ l2) -> NoDup l2.
+Proof. induction l1 as [|a l1 IH]; simpl; intro H; [exact H|]. inversion H; subst. auto. Qed.
+
+Lemma nodup_flat_map_in {A B} (g : A -> list B) l e : NoDup (flat_map g l) -> In e l -> NoDup (g e).
+Proof.
+  induction l as [|x r IH]; simpl; intros H HE; [contradiction|]. destruct HE as [E|E].
+  - subst. apply nodup_app_l in H. exact H.
+  - apply IH; [|exact E]. apply nodup_app_r in H. exact H.
+Qed.
+
+Lemma nodup_flat_map_entry {A B} (g : A -> list B) l e1 e2 x :
+  NoDup (flat_map g l) -> In e1 l -> In e2 l -> In x (g e1) -> In x (g e2) -> e1 = e2.
+Proof.
+  induction l as [|y r IH]; simpl; intros H H1 H2 X1 X2; [contradiction|].
+  destruct H1 as [H1|H1]; destruct H2 as [H2|H2].
+  - congruence.
+  - subst y. exfalso. apply (nodup_app_disjoint _ _ x H X1). apply in_flat_map. exists e2. auto.
+  - subst y. exfalso. apply (nodup_app_disjoint _ _ x H X2). apply in_flat_map. exists e1. auto.
+  - apply IH; try assumption. apply nodup_app_r in H. exact H.
+Qed.
+
+Lemma Forall2_in_r {A B} (R : A -> B -> Prop) l1 l2 y :
+  Forall2 R l1 l2 -> In y l2 -> exists x, In x l1 /\ R x y.
+Proof.
+  induction 1 as [|a b l1 l2 Hab H IH]; simpl; intro Hy; [contradiction|]. destruct Hy as [Hy|Hy].
+  - subst. exists a. auto.
+  - destruct (IH Hy) as [x [Hx Hr]]. exists x. auto.
+Qed.
+
+Lemma Forall2_in_l {A B} (R : A -> B -> Prop) l1 l2 x :
+  Forall2 R l1 l2 -> In x l1 -> exists y, In y l2 /\ R x y.
+Proof.
+  induction 1 as [|a b l1 l2 Hab H IH]; simpl; intro Hx; [contradiction|]. destruct Hx as [Hx|Hx].
+  - subst. exists b. auto.
+  - destruct (IH Hx) as [y [Hy Hr]]. exists y. auto.
+Qed.
+
+Section EachOnce.
+  Variable cfg : wcfg.
+  Variable seg : segment.
+  Variable f : file_info.
+  Hypothesis Hsub : WF_subgroups seg.
+  Hypothesis Hso : WF_section_order seg f.
+  Hypothesis Hleaf : fi_kind f <> KGroup.
+
+  Local Notation child := (child cfg seg).
+  Local Notation anc := (anc cfg seg).
+  Local Notation U := (configured seg).
+
+  Lemma child_entry k m : child k m -> exists others, In (k, others) (sections_subgroups seg) /\ In m others.
+  Proof.
+    unfold child, members. destruct (reference_partial cfg); [intros []|].
+    destruct (lookup k (sections_subgroups seg)) as [others|] eqn:E; [|intros []].
+    intro H. exists others. split; [apply lookup_in; exact E | exact H].
+  Qed.
+
+  Lemma child_member k m : child k m -> In m (flat_map snd (sections_subgroups seg)).
+  Proof. intro H. destruct (child_entry k m H) as [o [H1 H2]]. apply in_flat_map. exists (k, o). auto. Qed.
+
+  Lemma child_not_configured k m : child k m -> ~ In m U.
+  Proof. intro H. destruct Hsub as [_ [_ [H3 _]]]. apply H3. eapply child_member. exact H. Qed.
+
+  Lemma child_uniq p1 p2 x : child p1 x -> child p2 x -> p1 = p2.
+  Proof.
+    intros H1 H2. destruct (child_entry _ _ H1) as [o1 [E1 X1]]. destruct (child_entry _ _ H2) as [o2 [E2 X2]].
+    destruct Hsub as [_ [Hnd _]].
+    assert (E : (p1, o1) = (p2, o2)) by (eapply (nodup_flat_map_entry snd); eassumption).
+    congruence.
+  Qed.
+
+  Lemma members_nodup k : NoDup (members cfg seg k).
+  Proof.
+    unfold members. destruct (reference_partial cfg); [constructor|].
+    destruct (lookup k (sections_subgroups seg)) as [others|] eqn:E; [|constructor].
+    destruct Hsub as [_ [Hnd _]]. apply lookup_in in E. apply (nodup_flat_map_in snd _ _ Hnd E).
+  Qed.
+
+  Lemma here_member sections p m : child p m -> here sections f m = [m].
+  Proof.
+    intro H. pose proof (child_not_configured p m H) as Hn. destruct Hso as [_ Hwf].
+    unfold here, sections_here. destruct (fi_section_order f) as [|q r] eqn:E; [reflexivity|].
+    rewrite <- E in *.
+    assert (L : lookup m (fi_section_order f) = None).
+    { apply lookup_none_iff. intro Hin. apply in_map_iff in Hin. destruct Hin as [[k d] [Ek Hk]]. simpl in Ek. subst k.
+      apply Hn. apply (Hwf _ _ Hk). }
+    rewrite L. cbn [is_some].
+    rewrite filter_nil; [reflexivity|]. intros [k d] Hk. simpl.
+    destruct (String.eqb d m) eqn:Ed; [|reflexivity]. apply String.eqb_eq in Ed. subst d.
+    exfalso. apply Hn. apply (Hwf _ _ Hk).
+  Qed.
+
+  Lemma anc_not_configured a b : anc a b -> ~ In b U.
+  Proof. intro H. inversion H; subst; eapply child_not_configured; eassumption. Qed.
+
+  Lemma anc_closure a b : InClosure cfg seg U a -> anc a b -> InClosure cfg seg U b.
+  Proof.
+    intros Ha H. induction H as [a x H|a p x H IH Hc].
+    - apply (IC_member cfg seg U a x Ha H).
+    - apply (IC_member cfg seg U p x (IH Ha) Hc).
+  Qed.
+
+  (* the sections emitted for f in the group of one configured section *)
+  Lemma one_section_props rank sections s l :
+    (forall k m, child k m -> (rank m < rank k)%nat) ->
+    In s U -> Expands cfg seg sections f s l ->
+    good_keys cfg seg (here sections f s) l /\ NoDup l.
+  Proof.
+    intros Hrank Hs H. inversion H as [s' l' HK]; subst.
+    destruct (forest_props cfg seg f rank Hrank child_uniq members_nodup sections (here_member sections) Hleaf)
+      as [_ [HKs _]].
+    pose proof (HKs _ _ HK) as G. split; [exact G|]. destruct G as [_ [_ [_ N]]]. apply N.
+    - apply here_nodup. apply Hso.
+    - intros a b Ha Hb Hab. apply (anc_not_configured a b Hab). apply (here_configured sections seg f s b Hso Hs Hb).
+  Qed.
+
+  Lemma each_once_keys_perm W Keys :
+    Permutation W U ->
+    Forall2 (fun s keys => exists sections, Expands cfg seg sections f s keys) W Keys ->
+    NoDup (List.concat Keys) /\
+    (forall k, In k (List.concat Keys) <-> InClosure cfg seg U k).
+  Proof.
+    intros HV HF. destruct Hsub as [HndU [_ [_ [rank Hrank0]]]].
+    assert (HndW : NoDup W) by (eapply Permutation_NoDup; [apply Permutation_sym; exact HV | exact HndU]).
+    assert (HVU : forall x, In x W -> In x U) by (intros x Hx; eapply Permutation_in; eassumption).
+    assert (HUV : forall x, In x U -> In x W)
+      by (intros x Hx; eapply Permutation_in; [apply Permutation_sym; exact HV | exact Hx]).
+    assert (Hrank : forall k m, child k m -> (rank m < rank k)%nat).
+    { intros k m H. unfold Proofs.C01.child, members in H. destruct (reference_partial cfg); [contradiction|].
+      destruct (lookup k (sections_subgroups seg)) as [others|] eqn:E; [|contradiction]. eapply Hrank0; eassumption. }
+    (* facts about every element of the list, kept with its section *)
+    assert (Hall : forall s keys, In s U -> (exists sections, Expands cfg seg sections f s keys) ->
+               NoDup keys /\
+               (forall x, In x keys -> exists sections k, In k (here sections f s) /\ (x = k \/ anc k x)) /\
+               (forall sections k, In k (here sections f s) -> In k keys) /\
+               closed cfg seg keys).
+    { intros s keys Hs [sections HX]. destruct (one_section_props rank sections s keys Hrank Hs HX) as [[C [I [S _]]] N].
+      split; [exact N|]. split; [|split; [|exact C]].
+      - intros x Hx. destruct (S x Hx) as [k [Hk H]]. exists sections, k. auto.
+      - intros sections' k Hk. apply I. apply in_here. apply in_here in Hk. exact Hk. }
+    split.
+    - (* no section twice *)
+      assert (Hgen : forall V Ks, Forall2 (fun s keys => exists sections, Expands cfg seg sections f s keys) V Ks ->
+                                  NoDup V -> incl V U -> NoDup (List.concat Ks) /\
+                                  forall x, In x (List.concat Ks) ->
+                                            exists s sections k, In s V /\ In k (here sections f s) /\ (x = k \/ anc k x)).
+      { induction 1 as [|s keys V Ks Hsk HVK IH]; intros HndV Hincl.
+        - split; [constructor | intros x []].
+        - inversion HndV as [|? ? HsV HndV']; subst.
+          assert (HsU : In s U) by (apply Hincl; left; reflexivity).
+          destruct (Hall s keys HsU Hsk) as [N [S [_ _]]].
+          destruct (IH HndV' (fun x Hx => Hincl x (or_intror Hx))) as [N2 S2].
+          split.
+          + simpl. apply nodup_app; [exact N | exact N2 |].
+            intros x Hx1 Hx2. destruct (S x Hx1) as [sec1 [k1 [Hk1 H1]]].
+            destruct (S2 x Hx2) as [s2 [sec2 [k2 [Hs2 [Hk2 H2]]]]].
+            assert (Hs2U : In s2 U) by (apply Hincl; right; exact Hs2).
+            assert (Hk1U : In k1 U) by (apply (here_configured sec1 seg f s k1 Hso HsU Hk1)).
+            assert (Hk2U : In k2 U) by (apply (here_configured sec2 seg f s2 k2 Hso Hs2U Hk2)).
+            assert (Hne : s <> s2) by (intro E; subst; contradiction).
+            destruct H1 as [E1|E1]; destruct H2 as [E2|E2].
+            * subst. apply Hne. eapply here_disjoint; [apply Hso | eassumption | eassumption].
+            * subst x. apply (anc_not_configured _ _ E2). exact Hk1U.
+            * subst x. apply (anc_not_configured _ _ E1). exact Hk2U.
+            * destruct (anc_linear cfg seg child_uniq k1 x E1 k2 E2) as [E|[E|E]].
+              -- subst. apply Hne. eapply here_disjoint; [apply Hso | eassumption | eassumption].
+              -- apply (anc_not_configured _ _ E). exact Hk2U.
+              -- apply (anc_not_configured _ _ E). exact Hk1U.
+          + intros x Hx. simpl in Hx. apply in_app_iff in Hx. destruct Hx as [Hx|Hx].
+            * destruct (S x Hx) as [sec1 [k1 [Hk1 H1]]]. exists s, sec1, k1. split; [left; reflexivity|]. auto.
+            * destruct (S2 x Hx) as [s2 [sec2 [k2 [Hs2 H]]]]. exists s2, sec2, k2. split; [right; exact Hs2 | exact H]. }
+      destruct (Hgen W Keys HF HndW HVU) as [N _]. exact N.
+    - intro k. split.
+      + (* only sections of the closure *)
+        intro Hk. apply in_concat in Hk. destruct Hk as [keys [Hkeys Hk]].
+        destruct (Forall2_in_r _ _ _ _ HF Hkeys) as [s [Hs Hsk]]. apply HVU in Hs.
+        destruct (Hall s keys Hs Hsk) as [_ [S _]]. destruct (S k Hk) as [sec [k0 [Hk0 H]]].
+        assert (Hc : InClosure cfg seg U k0) by (apply IC_base; apply (here_configured sec seg f s k0 Hso Hs Hk0)).
+        destruct H as [E|E]; [subst; exact Hc | eapply anc_closure; eassumption].
+      + (* every section of the closure *)
+        intro Hk. induction Hk as [k Hk|k m Hk IH Hm].
+        * destruct (here_complete seg f k Hso Hk) as [s [Hs Hh]].
+          destruct (Forall2_in_l _ _ _ _ HF (HUV s Hs)) as [keys [Hkeys Hsk]].
+          destruct (Hall s keys Hs Hsk) as [_ [_ [I _]]]. apply in_concat. exists keys. split; [exact Hkeys|].
+          destruct Hsk as [sections _]. apply (I sections). apply Hh.
+        * apply in_concat in IH. destruct IH as [keys [Hkeys Hk']].
+          destruct (Forall2_in_r _ _ _ _ HF Hkeys) as [s [Hs Hsk]]. apply HVU in Hs.
+          destruct (Hall s keys Hs Hsk) as [_ [_ [_ C]]]. apply in_concat. exists keys. split; [exact Hkeys|].
+          eapply C; eassumption.
+  Qed.
+
+  Lemma each_once_keys Keys :
+    Forall2 (fun s keys => exists sections, Expands cfg seg sections f s keys) U Keys ->
+    NoDup (List.concat Keys) /\
+    (forall k, In k (List.concat Keys) <-> InClosure cfg seg U k).
+  Proof. apply each_once_keys_perm. apply Permutation_refl. Qed.
+End EachOnce.
+
+(* ====================================================================== *)
+(* exactly one input statement per configured section (entry level)        *)
+(* ====================================================================== *)
+
+Lemma inputs_of_app a b : inputs_of (a ++ b) = inputs_of a ++ inputs_of b.
+Proof. apply filter_app. Qed.
+
+Lemma keys_inputs rt sty cfg seg sections f keys base l :
+  KeysStmts rt sty cfg seg sections f keys base l ->
+  (fi_kind f = KObject \/ fi_kind f = KArchive) -> should_emit rt (fi_conds f) = true ->
+  inputs_of l = l /\ map input_section l = keys /\
+  Forall (fun st => names_leaf rt seg f base (input_section st) st) l.
+Proof.
+  intros H Hk He. induction H as [|f k ks base l1 l2 H1 H2 IH]; [repeat split; constructor|].
+  destruct (IH Hk He) as [I2 [M2 F2]].
+  assert (H1' : exists p, escape_path rt (fi_path f) = Ok p /\
+                  l1 = [SInput (keeps (fi_keep f) k) (display (push base p)) (member_of f) k (wildcard_sections seg)]).
+  { inversion H1; subst.
+    - congruence.
+    - apply own_input; assumption.
+    - destruct Hk; congruence. }
+  destruct H1' as [p [Ep E1]]. subst l1. rewrite inputs_of_app, map_app, I2, M2.
+  split; [reflexivity|]. split; [reflexivity|]. constructor; [|exact F2].
+  exists p. split; [exact Ep | reflexivity].
+Qed.
+
+(* the groups of the configured sections taken in any order [V] *)
+Lemma each_once_perm rt sty cfg seg f base V ls :
+  WF_subgroups seg -> WF_section_order seg f ->
+  (fi_kind f = KObject \/ fi_kind f = KArchive) -> should_emit rt (fi_conds f) = true ->
+  Permutation V (configured seg) ->
+  Forall2 (fun s l => exists sections, EntryStmts rt sty cfg seg sections f s base l) V ls ->
+  inputs_of (List.concat ls) = List.concat ls /\
+  NoDup (map input_section (List.concat ls)) /\
+  (forall k, In k (map input_section (List.concat ls)) <-> InClosure cfg seg (configured seg) k) /\
+  Forall (fun st => names_leaf rt seg f base (input_section st) st) (List.concat ls).
+Proof.
+  intros Hsub Hso Hk He HV HF.
+  assert (Hng : fi_kind f <> KGroup) by (destruct Hk as [E|E]; rewrite E; discriminate).
+  assert (H : exists Keys,
+             Forall2 (fun s keys => exists sections, Expands cfg seg sections f s keys) V Keys /\
+             inputs_of (List.concat ls) = List.concat ls /\
+             map input_section (List.concat ls) = List.concat Keys /\
+             Forall (fun st => names_leaf rt seg f base (input_section st) st) (List.concat ls)).
+  { clear HV. induction HF as [|s l U ls' [sections Hsl] HF IH].
+    - exists []. repeat split; constructor.
+    - destruct IH as [Keys [F [I [M N]]]]. inversion Hsl as [f0 s0 b0 keys l0 HX HK]; subst.
+      destruct (keys_inputs _ _ _ _ _ _ _ _ _ HK Hk He) as [I1 [M1 N1]].
+      exists (keys :: Keys). split; [constructor; [exists sections; exact HX | exact F]|].
+      simpl. rewrite inputs_of_app, map_app, I1, I, M1, M. repeat split. apply Forall_app; split; assumption. }
+  destruct H as [Keys [F [I [M N]]]].
+  destruct (each_once_keys_perm cfg seg f Hsub Hso Hng V Keys HV F) as [ND IFF].
+  split; [exact I|]. rewrite M. split; [exact ND|]. split; [exact IFF | exact N].
+Qed.
+
+Lemma each_once rt sty cfg seg f base ls :
+  WF_subgroups seg -> WF_section_order seg f ->
+  (fi_kind f = KObject \/ fi_kind f = KArchive) -> should_emit rt (fi_conds f) = true ->
+  Forall2 (fun s l => exists sections, EntryStmts rt sty cfg seg sections f s base l) (configured seg) ls ->
+  inputs_of (List.concat ls) = List.concat ls /\
+  NoDup (map input_section (List.concat ls)) /\
+  (forall k, In k (map input_section (List.concat ls)) <-> InClosure cfg seg (configured seg) k) /\
+  Forall (fun st => names_leaf rt seg f base (input_section st) st) (List.concat ls).
+Proof.
+  intros Hsub Hso Hk He. apply each_once_perm; try assumption. apply Permutation_refl.
+Qed.
+
+(* ====================================================================== *)
+(* exactly one input statement per configured section, at any depth        *)
+(* ====================================================================== *)
+
+Lemma WF_section_order_deep_eq seg f :
+  WF_section_order_deep seg f <->
+  WF_section_order seg f /\ Forall (WF_section_order_deep seg) (fi_files f).
+Proof.
+  destruct f as [p k sf pa s lon so files d c kp]. cbn [WF_section_order_deep fi_files].
+  assert (E : forall l,
+    (fix all (l : list file_info) : Prop :=
+       match l with
+       | [] => True
+       | c :: r => WF_section_order_deep seg c /\ all r
+       end) l <-> Forall (WF_section_order_deep seg) l).
+  { induction l as [|x r IH]; [split; constructor|]. rewrite IH. split.
+    - intros [H1 H2]. constructor; assumption.
+    - intro H. inversion H; subst. split; assumption. }
+  rewrite E. reflexivity.
+Qed.
+
+Lemma filter_perm {A} (g : A -> bool) l1 l2 : Permutation l1 l2 -> Permutation (filter g l1) (filter g l2).
+Proof.
+  induction 1 as [|x l1 l2 H IH|x y l|l1 l2 l3 H1 IH1 H2 IH2]; simpl.
+  - constructor.
+  - destruct (g x); [apply perm_skip|]; exact IH.
+  - destruct (g x), (g y); first [apply perm_swap | apply Permutation_refl].
+  - eapply Permutation_trans; eassumption.
+Qed.
+
+Lemma Forall2_weaken {A B} (R1 R2 : A -> B -> Prop) l l' :
+  (forall a b, R1 a b -> R2 a b) -> Forall2 R1 l l' -> Forall2 R2 l l'.
+Proof. intros H. induction 1; constructor; auto. Qed.
+
+Lemma Forall2_map_left {A B C} (R : B -> C -> Prop) (g : A -> B) l l' :
+  Forall2 (fun x y => R (g x) y) l l' -> Forall2 R (map g l) l'.
+Proof. induction 1; simpl; constructor; assumption. Qed.
+
+(* the leaves of an entry, case by case *)
+Lemma leaves_excluded rt base f : should_emit rt (fi_conds f) = false -> leaves rt base f = [].
+Proof. destruct f. simpl. intro H. rewrite H. reflexivity. Qed.
+
+Lemma leaves_one rt base f :
+  should_emit rt (fi_conds f) = true -> (fi_kind f = KObject \/ fi_kind f = KArchive) ->
+  leaves rt base f = [(f, base, [f])].
+Proof. destruct f. simpl. intros H [E|E]; rewrite H, E; reflexivity. Qed.
+
+Lemma leaves_other rt base f :
+  should_emit rt (fi_conds f) = true -> (fi_kind f = KPad \/ fi_kind f = KLinkerOffset) ->
+  leaves rt base f = [].
+Proof. destruct f. simpl. intros H [E|E]; rewrite H, E; reflexivity. Qed.
+
+Lemma leaves_group_err rt base f e :
+  should_emit rt (fi_conds f) = true -> fi_kind f = KGroup -> escape_path rt (fi_dir f) = Err e ->
+  leaves rt base f = [].
+Proof. destruct f. simpl. intros H E Hd. rewrite H, E, Hd. reflexivity. Qed.
+
+Lemma leaves_group_ok rt base f d :
+  should_emit rt (fi_conds f) = true -> fi_kind f = KGroup -> escape_path rt (fi_dir f) = Ok d ->
+  leaves rt base f = map (fun x => (fst (fst x), snd (fst x), f :: snd x))
+                         (flat_map (leaves rt (push base d)) (fi_files f)).
+Proof. destruct f. simpl. intros H E Hd. rewrite H, E, Hd. reflexivity. Qed.
+
+Section Deep.
+  Variable rt : runtime.
+  Variable sty : style.
+  Variable cfg : wcfg.
+  Variable seg : segment.
+  Hypothesis Hsub : WF_subgroups seg.
+
+  Local Notation U := (configured seg).
+
+  (* a group asks its entries exactly for the sections of [here] *)
+  Lemma expandskeys_group sections f ks l :
+    fi_kind f = KGroup -> ExpandsKeys cfg seg sections f ks l -> l = ks.
+  Proof.
+    intros Hk H. induction H as [|k ks l1 l2 Hm Hks IH]; [reflexivity|].
+    unfold entry_members in Hm. rewrite Hk in Hm. inversion Hm; subst. reflexivity.
+  Qed.
+
+  Lemma expands_group sections f s l :
+    fi_kind f = KGroup -> Expands cfg seg sections f s l -> l = here sections f s.
+  Proof. intros Hk H. inversion H; subst. eapply expandskeys_group; eassumption. Qed.
+
+  (* what the entries that name no input file write *)
+  Lemma keys_excluded sections f keys base l :
+    KeysStmts rt sty cfg seg sections f keys base l -> should_emit rt (fi_conds f) = false -> l = [].
+  Proof.
+    intros H He. induction H as [|f k ks base l1 l2 H1 H2 IH]; [reflexivity|].
+    rewrite (IH He), app_nil_r. inversion H1; subst; [reflexivity | congruence | congruence].
+  Qed.
+
+  Lemma keys_noinput sections f keys base l :
+    KeysStmts rt sty cfg seg sections f keys base l ->
+    (fi_kind f = KPad \/ fi_kind f = KLinkerOffset) -> inputs_of l = [].
+  Proof.
+    intros H Hk. induction H as [|f k ks base l1 l2 H1 H2 IH]; [reflexivity|].
+    rewrite inputs_of_app, (IH Hk), app_nil_r. inversion H1; subst.
+    - reflexivity.
+    - unfold own_stmts. destruct Hk as [E|E]; rewrite E; destruct (String.eqb (fi_section f) k); reflexivity.
+    - destruct Hk; congruence.
+  Qed.
+
+  Lemma keys_group_err sections f keys base l e :
+    KeysStmts rt sty cfg seg sections f keys base l ->
+    should_emit rt (fi_conds f) = true -> fi_kind f = KGroup -> escape_path rt (fi_dir f) = Err e -> l = [].
+  Proof.
+    intros H He Hk Hd. induction H as [|f k ks base l1 l2 H1 H2 IH]; [reflexivity|].
+    exfalso. inversion H1; subst; congruence.
+  Qed.
+
+  Lemma entries_inputs_nil f base V ls :
+    (forall sections keys l, KeysStmts rt sty cfg seg sections f keys base l -> inputs_of l = []) ->
+    Forall2 (fun s l => exists sections, EntryStmts rt sty cfg seg sections f s base l) V ls ->
+    inputs_of (List.concat ls) = [].
+  Proof.
+    intros Hnil HF. induction HF as [|s l V ls [sections Hsl] HF IH]; [reflexivity|].
+    simpl. rewrite inputs_of_app, IH, app_nil_r. inversion Hsl; subst. eapply Hnil. eassumption.
+  Qed.
+
+  (* an included group: the rows of its children, one per section it asks them for *)
+  Lemma group_rows f base d V ls :
+    should_emit rt (fi_conds f) = true -> fi_kind f = KGroup -> escape_path rt (fi_dir f) = Ok d ->
+    Forall2 (fun s l => exists sections, EntryStmts rt sty cfg seg sections f s base l) V ls ->
+    exists Hs rows,
+      Forall2 (fun s h => exists sections, h = here sections f s) V Hs /\
+      Forall2 (fun k lk => exists sections, KidsStmts rt sty cfg seg sections (fi_files f) k (push base d) lk)
+              (List.concat Hs) rows /\
+      List.concat ls = List.concat rows.
+  Proof.
+    intros He Hk Hd HF. induction HF as [|s l V ls [sections Hsl] HF IH].
+    - exists [], []. repeat split; constructor.
+    - destruct IH as [Hs [rows [F1 [F2 E]]]]. inversion Hsl as [f0 s0 b0 keys l0 HX HK]; subst.
+      apply (expands_group sections f s keys Hk) in HX. subst keys.
+      destruct (keys_group rt sty cfg seg sections f _ base l d HK He Hk Hd) as [lks [F3 E3]]. subst l.
+      exists (here sections f s :: Hs), (lks ++ rows).
+      split; [constructor; [exists sections; reflexivity | exact F1]|].
+      split.
+      + simpl. apply Forall2_app; [|exact F2]. eapply Forall2_weaken; [|exact F3].
+        intros k lk H. exists sections. exact H.
+      + simpl. rewrite concat_app, E. reflexivity.
+  Qed.
+
+  (* over the groups of all configured sections, an entry with a well-formed section_order is asked
+     for (and a group asks its entries for) every configured section exactly once *)
+  Lemma heres_perm f V Hs :
+    WF_section_order seg f -> Permutation V U ->
+    Forall2 (fun s h => exists sections, h = here sections f s) V Hs -> Permutation (List.concat Hs) U.
+  Proof.
+    intros Hso HV HF. destruct Hsub as [HndU _].
+    assert (HndV : NoDup V) by (eapply Permutation_NoDup; [apply Permutation_sym; exact HV | exact HndU]).
+    assert (HVU : forall x, In x V -> In x U) by (intros x Hx; eapply Permutation_in; eassumption).
+    assert (HUV : forall x, In x U -> In x V)
+      by (intros x Hx; eapply Permutation_in; [apply Permutation_sym; exact HV | exact Hx]).
+    apply NoDup_Permutation; [|exact HndU|].
+    - assert (G : forall V Hs, Forall2 (fun s h => exists sections, h = here sections f s) V Hs -> NoDup V ->
+                    NoDup (List.concat Hs) /\
+                    forall k, In k (List.concat Hs) -> exists s sections, In s V /\ In k (here sections f s)).
+      { induction 1 as [|s h V' Hs' [sections Eh] HF' IH]; intro Hnd.
+        - split; [constructor | intros k []].
+        - inversion Hnd as [|? ? Hs1 Hnd']; subst. destruct (IH Hnd') as [N S]. split.
+          + simpl. apply nodup_app; [apply here_nodup; apply Hso | exact N |].
+            intros k Hk1 Hk2. destruct (S k Hk2) as [s2 [sec2 [Hs2 Hk2']]].
+            assert (s = s2) by (eapply here_disjoint; [apply Hso | exact Hk1 | exact Hk2']).
+            subst. contradiction.
+          + intros k Hk. simpl in Hk. apply in_app_iff in Hk. destruct Hk as [Hk|Hk].
+            * exists s, sections. split; [left; reflexivity | exact Hk].
+            * destruct (S k Hk) as [s2 [sec2 [H1 H2]]]. exists s2, sec2. split; [right; exact H1 | exact H2]. }
+      apply (G V Hs HF HndV).
+    - intro k. split.
+      + intro Hk. apply in_concat in Hk. destruct Hk as [h [Hh Hk]].
+        destruct (Forall2_in_r _ _ _ _ HF Hh) as [s [Hs0 [sections E]]]. subst h.
+        eapply here_configured; [exact Hso | apply HVU; exact Hs0 | exact Hk].
+      + intro Hk. destruct (here_complete seg f k Hso Hk) as [s [Hs0 Hh]].
+        destruct (Forall2_in_l _ _ _ _ HF (HUV s Hs0)) as [h [Hh' [sections E]]]. subst h.
+        apply in_concat. exists (here sections f s). split; [exact Hh' | apply Hh].
+  Qed.
+
+  (* the rows of a list of entries: the column of the first entry and the rows of the others *)
+  Lemma kids_nil_rows base V rows :
+    Forall2 (fun k l => exists sections, KidsStmts rt sty cfg seg sections [] k base l) V rows ->
+    List.concat rows = [].
+  Proof.
+    induction 1 as [|k l V rows [sections H] HF IH]; [reflexivity|]. inversion H; subst. simpl. exact IH.
+  Qed.
+
+  Lemma kids_split c r base V rows :
+    Forall2 (fun k l => exists sections, KidsStmts rt sty cfg seg sections (c :: r) k base l) V rows ->
+    exists col rows2,
+      Forall2 (fun k l => exists sections, EntryStmts rt sty cfg seg sections c k base l) V col /\
+      Forall2 (fun k l => exists sections, KidsStmts rt sty cfg seg sections r k base l) V rows2 /\
+      Permutation (List.concat rows) (List.concat col ++ List.concat rows2).
+  Proof.
+    induction 1 as [|k l V rows [sections Hkl] HF IH].
+    - exists [], []. repeat split; constructor.
+    - destruct IH as [col [rows2 [F1 [F2 P]]]]. inversion Hkl as [|c0 r0 k0 b0 l1 l2 H1 H2]; subst.
+      exists (l1 :: col), (l2 :: rows2).
+      split; [constructor; [exists sections; exact H1 | exact F1]|].
+      split; [constructor; [exists sections; exact H2 | exact F2]|].
+      simpl. rewrite <- !app_assoc. apply Permutation_app_head.
+      eapply Permutation_trans; [apply Permutation_app_head; exact P|].
+      apply Permutation_app_swap_app.
+  Qed.
+
+  Definition once_entry (f : file_info) : Prop :=
+    forall base V ls,
+      WF_section_order_deep seg f -> Permutation V U ->
+      Forall2 (fun s l => exists sections, EntryStmts rt sty cfg seg sections f s base l) V ls ->
+      exists parts, Permutation (inputs_of (List.concat ls)) (List.concat parts) /\
+                    Forall2 (leaf_once rt cfg seg) (leaves rt base f) parts.
+
+  Lemma once_kids files :
+    Forall once_entry files ->
+    forall base V rows,
+      Forall (WF_section_order_deep seg) files -> Permutation V U ->
+      Forall2 (fun k l => exists sections, KidsStmts rt sty cfg seg sections files k base l) V rows ->
+      exists parts, Permutation (inputs_of (List.concat rows)) (List.concat parts) /\
+                    Forall2 (leaf_once rt cfg seg) (flat_map (leaves rt base) files) parts.
+  Proof.
+    induction 1 as [|c r Hc Hr IH]; intros base V rows Hwf HV HF.
+    - exists []. rewrite (kids_nil_rows _ _ _ HF). split; constructor.
+    - inversion Hwf as [|? ? Hwc Hwr]; subst.
+      destruct (kids_split c r base V rows HF) as [col [rows2 [F1 [F2 P]]]].
+      destruct (Hc base V col Hwc HV F1) as [p1 [P1 L1]].
+      destruct (IH base V rows2 Hwr HV F2) as [p2 [P2 L2]].
+      exists (p1 ++ p2). split.
+      + rewrite concat_app. unfold inputs_of in *.
+        eapply Permutation_trans; [apply filter_perm; exact P|].
+        rewrite filter_app. apply Permutation_app; assumption.
+      + simpl. apply Forall2_app; assumption.
+  Qed.
+
+  Lemma once_entry_all f : once_entry f.
+  Proof.
+    induction f as [p k sf pa sec lon so files d c kp IHfiles] using file_info_ind'.
+    pose (f := FileInfo p k sf pa sec lon so files d c kp).
+    assert (IH : Forall once_entry (fi_files f)) by exact IHfiles.
+    change (once_entry f). clearbody f. clear IHfiles.
+    intros base V ls Hwf HV HF. apply WF_section_order_deep_eq in Hwf. destruct Hwf as [Hso Hkids].
+    destruct (should_emit rt (fi_conds f)) eqn:He.
+    2:{ rewrite (leaves_excluded rt base f He). exists []. split; [|constructor].
+        rewrite (entries_inputs_nil f base V ls); [constructor| |exact HF].
+        intros sections keys l HK. rewrite (keys_excluded sections f keys base l HK He). reflexivity. }
+    destruct (fi_kind f) eqn:Ek.
+    - rewrite (leaves_one rt base f He (or_introl Ek)).
+      destruct (each_once_perm rt sty cfg seg f base V ls Hsub Hso (or_introl Ek) He HV HF) as [I [N [IFF NL]]].
+      exists [List.concat ls]. split; [simpl; rewrite app_nil_r, I; apply Permutation_refl|].
+      constructor; [|constructor]. unfold leaf_once. auto.
+    - rewrite (leaves_one rt base f He (or_intror Ek)).
+      destruct (each_once_perm rt sty cfg seg f base V ls Hsub Hso (or_intror Ek) He HV HF) as [I [N [IFF NL]]].
+      exists [List.concat ls]. split; [simpl; rewrite app_nil_r, I; apply Permutation_refl|].
+      constructor; [|constructor]. unfold leaf_once. auto.
+    - rewrite (leaves_other rt base f He (or_introl Ek)). exists []. split; [|constructor].
+      rewrite (entries_inputs_nil f base V ls); [constructor| |exact HF].
+      intros sections keys l HK. apply (keys_noinput sections f keys base l HK). left. exact Ek.
+    - rewrite (leaves_other rt base f He (or_intror Ek)). exists []. split; [|constructor].
+      rewrite (entries_inputs_nil f base V ls); [constructor| |exact HF].
+      intros sections keys l HK. apply (keys_noinput sections f keys base l HK). right. exact Ek.
+    - destruct (escape_path rt (fi_dir f)) as [d0|e] eqn:Ed.
+      + rewrite (leaves_group_ok rt base f d0 He Ek Ed).
+        destruct (group_rows f base d0 V ls He Ek Ed HF) as [Hs [rows [F1 [F2 E]]]].
+        pose proof (heres_perm f V Hs Hso HV F1) as HV'.
+        destruct (once_kids (fi_files f) IH (push base d0) (List.concat Hs) rows Hkids HV' F2) as [parts [P L]].
+        exists parts. split; [rewrite E; exact P|].
+        apply Forall2_map_left. eapply Forall2_weaken; [|exact L].
+        intros [[c0 b0] ch] part H. exact H.
+      + rewrite (leaves_group_err rt base f e He Ek Ed). exists []. split; [|constructor].
+        rewrite (entries_inputs_nil f base V ls); [constructor| |exact HF].
+        intros sections keys l HK. rewrite (keys_group_err sections f keys base l e HK He Ek Ed). reflexivity.
+  Qed.
+End Deep.
+
+Lemma group_asks_each_once seg f V Hs :
+  WF_subgroups seg -> WF_section_order seg f -> Permutation V (configured seg) ->
+  Forall2 (fun s h => exists sections, h = here sections f s) V Hs ->
+  Permutation (List.concat Hs) (configured seg).
+Proof. intro H. exact (heres_perm seg H f V Hs). Qed.
+
+(* an entry at the top of a segment's list, any nesting of groups below it: over the groups of all
+   configured sections, every leaf below the entry gets exactly one input statement for every section
+   of the closure; nothing else is an input statement *)
+Lemma each_once_deep rt sty cfg seg f base ls :
+  WF_subgroups seg -> WF_section_order_deep seg f ->
+  Forall2 (fun s l => exists sections, EntryStmts rt sty cfg seg sections f s base l) (configured seg) ls ->
+  exists parts, Permutation (inputs_of (List.concat ls)) (List.concat parts) /\
+                Forall2 (leaf_once rt cfg seg) (leaves rt base f) parts.
+Proof.
+  intros Hsub Hwf HF. apply (once_entry_all rt sty cfg seg Hsub f base (configured seg) ls Hwf); [|exact HF].
+  apply Permutation_refl.
+Qed.
+
+(* the same for a list of entries (the files of a segment, the entries of a group) *)
+Lemma each_once_files rt sty cfg seg files base rows :
+  WF_subgroups seg -> Forall (WF_section_order_deep seg) files ->
+  Forall2 (fun s l => exists sections, KidsStmts rt sty cfg seg sections files s base l) (configured seg) rows ->
+  exists parts, Permutation (inputs_of (List.concat rows)) (List.concat parts) /\
+                Forall2 (leaf_once rt cfg seg) (flat_map (leaves rt base) files) parts.
+Proof.
+  intros Hsub Hwf HF.
+  apply (once_kids rt sty cfg seg files) with (V := configured seg); try assumption.
+  - apply Forall_forall. intros f _. apply once_entry_all. exact Hsub.
+  - apply Permutation_refl.
+Qed.
+
+(* ... and for the writer itself: the files of a segment over the groups of all configured sections *)
+Lemma each_once_segment rt sty cfg seg base_path b rows :
+  WF_subgroups seg -> Forall (WF_section_order_deep seg) (sg_files seg) ->
+  (exists b0, escape_path rt base_path = Ok b0 /\
+              (if reference_partial cfg then b = b0
+               else exists d, escape_path rt (sg_dir seg) = Ok d /\ b = push b0 d)) ->
+  Forall2 (fun s l => exists sections ws ws',
+               emit_section rt sty cfg seg sections base_path s ws = Ok (l, ws')) (configured seg) rows ->
+  exists parts, Permutation (inputs_of (List.concat rows)) (List.concat parts) /\
+                Forall2 (leaf_once rt cfg seg) (flat_map (leaves rt b) (sg_files seg)) parts.
+Proof.
+  intros Hsub Hwf [b0 [E0 Hb]] HF. apply each_once_files with (sty := sty); try assumption.
+  eapply Forall2_weaken; [|exact HF]. intros s l [sections [ws [ws' H]]]. exists sections.
+  apply emit_section_sound in H. destruct H as [b' [[b0' [E0' Hb']] HK]].
+  assert (Eb : b' = b).
+  { rewrite E0 in E0'. inversion E0'; subst b0'. destruct (reference_partial cfg); [congruence|].
+    destruct Hb as [d [Ed Eb]]. destruct Hb' as [d' [Ed' Eb']]. rewrite Ed in Ed'. inversion Ed'; subst.
+    reflexivity. }
+  subst b'. exact HK.
+Qed.
+
+(* ====================================================================== *)
+(* the findings                                                            *)
+(* ====================================================================== *)
+
+Definition inputs_of_doc (d : document) : list string :=
+  match gen_normal d c01_rt with Ok w => script_inputs (wo_script w) | Err _ => ["<error>"] end.
+
+(* a section_order destination that is not among the segment's sections silently drops the section:
+   nothing names m.o(.data) *)
+Lemma refuted_dropped_section :
+  inputs_of_doc (c01_doc [c01_obj "a.o" []; c01_obj "m.o" [(".data", ".rodata")]] [".text"; ".data"] [".bss"] []) =
+  ["a.o(.text)"; "m.o(.text)"; "a.o(.data)"; "a.o(.bss)"; "m.o(.bss)"].
+Proof. vm_compute. reflexivity. Qed.
+
+(* a section listed twice in alloc_sections places every file twice *)
+Lemma refuted_duplicate_list :
+  inputs_of_doc (c01_doc [c01_obj "a.o" []] [".text"; ".text"] [".bss"] []) =
+  ["a.o(.text)"; "a.o(.text)"; "a.o(.bss)"].
+Proof. vm_compute. reflexivity. Qed.
+
+(* repaired (it was a finding: sub-groups used to be expanded once for a group and once more for each
+   of its children, so an entry inside a group got two statements for every sub-group section): a
+   group leaves the expansion to its entries, each statement appears once *)
+Lemma group_subgroups_once :
+  let g := c01_group "g" [c01_obj "a.o" []] in
+  let seg := c01_seg [g] [".text"] [".bss"] [(".text", [".text.hot"])] in
+  WF_subgroups seg /\ WF_section_order_deep seg g /\
+  inputs_of_doc (c01_doc [g] [".text"] [".bss"] [(".text", [".text.hot"])]) =
+  ["g/a.o(.text)"; "g/a.o(.text.hot)"; "g/a.o(.bss)"].
+Proof.
+  intros g seg. split; [|split].
+  - unfold WF_subgroups, configured. simpl. split; [|split; [|split]].
+    + repeat constructor; simpl; intuition discriminate.
+    + repeat constructor; simpl; intuition.
+    + intros m [E|[]] H. subst m. simpl in H. intuition discriminate.
+    + exists (fun s => if String.eqb s ".text" then 1%nat else 0%nat). intros k others m Hl Hm.
+      destruct (String.eqb k ".text") eqn:E; [|discriminate]. inversion Hl; subst. destruct Hm as [Hm|[]]. subst m.
+      simpl. lia.
+  - assert (W : forall f, fi_section_order f = [] -> WF_section_order seg f).
+    { intros f E. unfold WF_section_order. rewrite E. split; [constructor | intros k d []]. }
+    simpl. split; [apply W; reflexivity|]. split; [|exact I]. split; [apply W; reflexivity | exact I].
+  - vm_compute. reflexivity.
+Qed.
+
+(* ====================================================================== *)
+(* link level                                                              *)
+(* ====================================================================== *)
+
+Local Open Scope Z_scope.
+
+Lemma filter_partition_perm {A} (g : A -> bool) l :
+  Permutation l (filter g l ++ filter (fun x => negb (g x)) l).
+Proof.
+  induction l as [|x r IH]; simpl; [constructor|]. destruct (g x); simpl.
+  - apply perm_skip. exact IH.
+  - apply Permutation_cons_app. exact IH.
+Qed.
+
+(* placing a selection: placed ++ new, remaining without the selection, same markers overall *)
+Lemma markers_move placed disc (remaining : list usec) g (new : list placement) :
+  map pl_marker new = map u_marker (filter g remaining) ->
+  Permutation (map pl_marker (placed ++ new) ++ disc ++ map u_marker (filter (fun u => negb (g u)) remaining))
+              (map pl_marker placed ++ disc ++ map u_marker remaining).
+Proof.
+  intro Hm. rewrite map_app, Hm, <- app_assoc. apply Permutation_app_head.
+  eapply Permutation_trans; [apply Permutation_app_swap_app|]. apply Permutation_app_head.
+  rewrite <- map_app. apply Permutation_map. apply Permutation_sym. apply filter_partition_perm.
+Qed.
+
+Section Conservation.
+  Variables env ext : list (string * Z).
+  Variable senv : list osec.
+  Variable final : bool.
+
+  (* C01_not_discarded, inside an output section: an input statement moves exactly the selected
+     sections from the universe to the placements *)
+  Lemma input_moves vma sub outsec ss kp path member sect wild :
+    let ss' := exec_sec_stmt env senv ext final vma sub outsec ss (SInput kp path member sect wild) in
+    l_remaining (s_st ss') =
+      filter (fun u => negb (sel false path member sect wild u)) (l_remaining (s_st ss)) /\
+    l_discarded (s_st ss') = l_discarded (s_st ss) /\
+    exists new, l_placed (s_st ss') = l_placed (s_st ss) ++ new /\
+                map pl_marker new = map u_marker (filter (sel false path member sect wild) (l_remaining (s_st ss))) /\
+                Forall (fun p => pl_outsec p = outsec) new.
+  Proof.
+    cbn [exec_sec_stmt].
+    destruct (place vma sub outsec (filter (sel false path member sect wild) (l_remaining (s_st ss)))
+                    (s_off ss) [] (s_contents ss)) as [[off' pls] c] eqn:E.
+    cbn [s_st l_remaining l_discarded l_placed]. split; [reflexivity|]. split; [reflexivity|].
+    exists pls. split; [reflexivity|].
+    assert (G : forall l off acc c0 off1 acc1 c1,
+               place vma sub outsec l off acc c0 = (off1, acc1, c1) ->
+               exists new, acc1 = acc ++ new /\ map pl_marker new = map u_marker l /\
+                           Forall (fun p => pl_outsec p = outsec) new).
+    { induction l as [|u r IH]; intros off acc c0 off1 acc1 c1 H; simpl in H.
+      - inversion H; subst. exists []. rewrite app_nil_r. repeat split; constructor.
+      - destruct (IH _ _ _ _ _ _ H) as [new [E1 [E2 E3]]]. subst acc1.
+        eexists (_ :: new). rewrite <- app_assoc. split; [reflexivity|]. simpl. rewrite E2.
+        split; [reflexivity|]. constructor; [reflexivity | exact E3]. }
+    destruct (G _ _ _ _ _ _ _ E) as [new [E1 [E2 E3]]]. simpl in E1. subst. auto.
+  Qed.
+
+  Lemma sec_stmt_conserves vma sub outsec ss s :
+    Permutation (all_markers (s_st (exec_sec_stmt env senv ext final vma sub outsec ss s))) (all_markers (s_st ss)).
+  Proof.
+    destruct s as [t| |p h rc sym e|sym n|sym other|sec|n|n|kp path member sect wild|nm addr at_ nl sb body
+                   |sect|pats wild|body|e|e|c m]; try apply Permutation_refl.
+    - unfold all_markers. cbn [exec_sec_stmt s_st]. rewrite assign_placed, assign_discarded, assign_remaining.
+      apply Permutation_refl.
+    - cbn [exec_sec_stmt]. destruct (String.eqb sym "."); apply Permutation_refl.
+    - destruct (input_moves vma sub outsec ss kp path member sect wild) as [Hr [Hd [new [Hp [Hm _]]]]].
+      unfold all_markers. rewrite Hr, Hd, Hp. apply markers_move. exact Hm.
+  Qed.
+
+  Lemma sec_fold_conserves vma sub outsec body : forall ss,
+    Permutation (all_markers (s_st (fold_left (exec_sec_stmt env senv ext final vma sub outsec) body ss)))
+                (all_markers (s_st ss)).
+  Proof.
+    induction body as [|s r IH]; intro ss; simpl; [apply Permutation_refl|].
+    eapply Permutation_trans; [apply IH | apply sec_stmt_conserves].
+  Qed.
+
+  Lemma outsec_conserves name addr at_ noload sub body st :
+    Permutation (all_markers (exec_outsec env senv ext final name addr at_ noload sub body st)) (all_markers st).
+  Proof.
+    destruct (outsec_vma env senv ext addr sub body st) as [vma|e] eqn:E.
+    - destruct (exec_outsec_ok env senv ext final name addr at_ noload sub body st vma E) as [_ [Hp [Hr [_ [Hd _]]]]].
+      unfold all_markers at 1. rewrite Hp, Hr, Hd.
+      pose proof (fold_X_discarded env ext senv final vma (option_map Z.of_N sub) name body (SState 0 false st)) as HD.
+      change (l_discarded (s_st (SState 0 false st))) with (l_discarded st) in HD. rewrite <- HD.
+      apply (sec_fold_conserves vma (option_map Z.of_N sub) name body (SState 0 false st)).
+    - rewrite (exec_outsec_err _ _ _ _ _ _ _ _ _ _ _ e E). apply Permutation_refl.
+  Qed.
+
+  Lemma place_markers vma sub outsec l : forall off acc c0 off1 acc1 c1,
+    place vma sub outsec l off acc c0 = (off1, acc1, c1) ->
+    exists new, acc1 = acc ++ new /\ map pl_marker new = map u_marker l.
+  Proof.
+    induction l as [|u r IH]; intros off acc c0 off1 acc1 c1 H; simpl in H.
+    - inversion H; subst. exists []. rewrite app_nil_r. split; reflexivity.
+    - destruct (IH _ _ _ _ _ _ H) as [new [E1 E2]]. subst acc1.
+      eexists (_ :: new). rewrite <- app_assoc. split; [reflexivity|]. simpl. rewrite E2. reflexivity.
+  Qed.
+
+  (* every top-level statement keeps every input section in exactly one of: placed, discarded, waiting *)
+  Lemma top_stmt_conserves st s :
+    Permutation (all_markers (exec_top_stmt env senv ext final st s)) (all_markers st).
+  Proof.
+    destruct s as [t| |p h rc sym e|sym n|sym other|sec|n|n|kp path member sect wild|nm addr at_ nl sb body
+                   |sect|pats wild|body|e|e|c m]; try apply Permutation_refl.
+    - cbn [exec_top_stmt]. destruct (String.eqb sym ".").
+      + destruct (eval_expr env senv ext st (l_dot st) e); apply Permutation_refl.
+      + unfold all_markers. rewrite assign_placed, assign_discarded, assign_remaining. apply Permutation_refl.
+    - cbn [exec_top_stmt]. destruct (String.eqb sym "."); [apply Permutation_refl|].
+      destruct (sym_lookup sym st env ext); apply Permutation_refl.
+    - cbn [exec_top_stmt]. destruct (sym_lookup sym st env ext); destruct (sym_lookup other st env ext);
+        try destruct final; apply Permutation_refl.
+    - cbn [exec_top_stmt]. destruct (sym_lookup "__romPos" st env ext); destruct (sec_lookup sec st senv);
+        try destruct final; apply Permutation_refl.
+    - apply outsec_conserves.
+    - cbn [exec_top_stmt].
+      destruct (place 0 None sect (filter (sel true "" None sect false) (l_remaining st)) 0 [] false)
+        as [[off' pls] c] eqn:E.
+      destruct (place_markers _ _ _ _ _ _ _ _ _ _ E) as [new [E1 E2]]. simpl in E1. subst pls.
+      unfold all_markers. cbn [l_placed l_discarded l_remaining]. apply markers_move. exact E2.
+    - cbn [exec_top_stmt]. unfold all_markers. cbn [l_placed l_discarded l_remaining].
+      apply Permutation_app_head. rewrite <- app_assoc. apply Permutation_app_head.
+      rewrite <- map_app. apply Permutation_map.
+      apply Permutation_sym.
+      apply (filter_partition_perm (fun u => existsb (fun p => name_matches p false (u_name u)) pats || wild)%bool).
+    - cbn [exec_top_stmt]. destruct (eval_raw env ext st c) as [v|e0].
+      + destruct (v =? 0); apply Permutation_refl.
+      + destruct e0; try destruct final; apply Permutation_refl.
+  Qed.
+
+  Lemma top_fold_conserves body : forall st,
+    Permutation (all_markers (fold_left (exec_top_stmt env senv ext final) body st)) (all_markers st).
+  Proof.
+    induction body as [|s r IH]; intro st; simpl; [apply Permutation_refl|].
+    eapply Permutation_trans; [apply IH | apply top_stmt_conserves].
+  Qed.
+
+  Lemma script_conserves script : forall st,
+    Permutation (all_markers (exec_script env senv ext final script st)) (all_markers st).
+  Proof.
+    unfold exec_script. induction script as [|s r IH]; intro st; simpl; [apply Permutation_refl|].
+    eapply Permutation_trans; [apply IH|].
+    destruct s; try apply top_stmt_conserves. apply top_fold_conserves.
+  Qed.
+End Conservation.
+
+(* ====================================================================== *)
+(* every placed input section lies inside an output section laid out with it *)
+(* ====================================================================== *)
+
+Definition in_some_section (secs : list osec) (p : placement) : Prop :=
+  exists o, In o secs /\ os_name o = pl_outsec p /\ os_vma o <= pl_addr p /\ pl_addr p <= os_vma o + os_size o.
+
+(* what a piece of top-level execution may do to the layout *)
+Definition top_post (st st' : lstate) : Prop :=
+  nonneg_sizes (l_remaining st') /\
+  incl (l_remaining st') (l_remaining st) /\
+  (exists extra, l_discarded st' = l_discarded st ++ extra /\ incl extra (map u_marker (l_remaining st))) /\
+  exists new secs, l_placed st' = l_placed st ++ new /\ l_secs st' = l_secs st ++ secs /\
+                   Forall (in_some_section secs) new.
+
+Lemma top_post_same st st' :
+  nonneg_sizes (l_remaining st) ->
+  l_placed st' = l_placed st -> l_secs st' = l_secs st -> l_remaining st' = l_remaining st ->
+  l_discarded st' = l_discarded st -> top_post st st'.
+Proof.
+  intros Hn H1 H2 H3 H4. split; [rewrite H3; exact Hn|]. split; [rewrite H3; apply incl_refl|].
+  split; [exists []; rewrite app_nil_r; split; [exact H4 | intros x []]|].
+  exists [], []. rewrite !app_nil_r. repeat split; try assumption. constructor.
+Qed.
+
+Lemma in_some_section_mono secs1 secs2 p :
+  in_some_section secs1 p \/ in_some_section secs2 p -> in_some_section (secs1 ++ secs2) p.
+Proof.
+  intros [[o [H1 H2]]|[o [H1 H2]]]; exists o; (split; [apply in_app_iff; auto | exact H2]).
+Qed.
+
+Lemma top_post_trans a b c : top_post a b -> top_post b c -> top_post a c.
+Proof.
+  intros [N1 [I1 [[x1 [D1 E1]] [new1 [secs1 [P1 [S1 F1]]]]]]] [N2 [I2 [[x2 [D2 E2]] [new2 [secs2 [P2 [S2 F2]]]]]]].
+  split; [exact N2|]. split; [eapply incl_tran; eassumption|].
+  split.
+  - exists (x1 ++ x2). rewrite D2, D1, app_assoc. split; [reflexivity|].
+    apply incl_app; [exact E1|]. eapply incl_tran; [exact E2|]. apply incl_map. exact I1.
+  - exists (new1 ++ new2), (secs1 ++ secs2). rewrite P2, P1, S2, S1, !app_assoc.
+    split; [reflexivity|]. split; [reflexivity|].
+    apply Forall_app; split; (eapply Forall_impl; [|eassumption]); intros p Hp; apply in_some_section_mono; auto.
+Qed.
+
+Section Placed.
+  Variables env ext : list (string * Z).
+  Variable senv : list osec.
+  Variable final : bool.
+
+  Lemma sec_fold_remaining vma sub outsec body : forall ss,
+    incl (l_remaining (s_st (fold_left (exec_sec_stmt env senv ext final vma sub outsec) body ss)))
+         (l_remaining (s_st ss)).
+  Proof.
+    induction body as [|s r IH]; intro ss; [apply incl_refl|]. simpl. eapply incl_tran; [apply IH|].
+    destruct s; try apply incl_refl; simpl.
+    - rewrite assign_remaining. apply incl_refl.
+    - destruct (String.eqb sym "."); apply incl_refl.
+    - destruct (place vma sub outsec _ _ _ _) as [[o p] c]. simpl. apply incl_filter.
+  Qed.
+
+  Lemma top_stmt_post st s :
+    nonneg_sizes (l_remaining st) -> top_post st (exec_top_stmt env senv ext final st s).
+  Proof.
+    intro Hn.
+    destruct s as [t| |p h rc sym e|sym n|sym other|sec|n|n|kp path member sect wild|nm addr at_ nl sb body
+                   |sect|pats wild|body|e|e|c m]; try (apply top_post_same; [exact Hn|reflexivity..]).
+    - cbn [exec_top_stmt]. destruct (String.eqb sym ".").
+      + destruct (eval_expr env senv ext st (l_dot st) e); apply top_post_same; try reflexivity; exact Hn.
+      + apply top_post_same; [exact Hn | apply assign_placed | apply assign_secs | apply assign_remaining
+                              | apply assign_discarded].
+    - cbn [exec_top_stmt]. destruct (String.eqb sym "."); [apply top_post_same; try reflexivity; exact Hn|].
+      destruct (sym_lookup sym st env ext); apply top_post_same; try reflexivity; exact Hn.
+    - cbn [exec_top_stmt]. destruct (sym_lookup sym st env ext); destruct (sym_lookup other st env ext);
+        try destruct final; apply top_post_same; try reflexivity; exact Hn.
+    - cbn [exec_top_stmt]. destruct (sym_lookup "__romPos" st env ext); destruct (sec_lookup sec st senv);
+        try destruct final; apply top_post_same; try reflexivity; exact Hn.
+    - (* an output section *)
+      cbn [exec_top_stmt]. destruct (outsec_vma env senv ext addr sb body st) as [vma|e] eqn:E.
+      + destruct (outsec_post env senv ext final nm addr at_ nl sb body st vma Hn E)
+          as [size [new [lma [c [P1 [P2 [P3 [P4 [P5 [P6 [P7 P8]]]]]]]]]]].
+        split; [exact P7|]. split.
+        { destruct (exec_outsec_ok env senv ext final nm addr at_ nl sb body st vma E) as [_ [_ [Hr _]]].
+          rewrite Hr. apply (sec_fold_remaining vma (option_map Z.of_N sb) nm body (SState 0 false st)). }
+        split; [exists []; rewrite app_nil_r; split; [exact P8 | intros x []]|].
+        exists new. eexists. split; [exact P4|]. split; [exact P3|].
+        eapply Forall_impl; [|exact P5]. intros p [A [B C]]. eexists. split; [left; reflexivity|].
+        cbn [os_name os_vma os_size]. auto.
+      + rewrite (exec_outsec_err _ _ _ _ _ _ _ _ _ _ _ e E). apply top_post_same; try reflexivity; exact Hn.
+    - (* an allowlist entry *)
+      cbn [exec_top_stmt].
+      destruct (place 0 None sect (filter (sel true "" None sect false) (l_remaining st)) 0 [] false)
+        as [[off' pls] c] eqn:E.
+      apply (place_sorted 0 None sect) in E; [|apply Forall_filter; exact Hn].
+      destruct E as [Hle [new [Hacc [_ [Hall _]]]]]. simpl in Hacc. subst pls.
+      split; [apply Forall_filter; exact Hn|]. split; [apply incl_filter|].
+      split; [exists []; rewrite app_nil_r; split; [reflexivity | intros x []]|].
+      exists new. eexists. split; [reflexivity|]. split; [reflexivity|].
+      eapply Forall_impl; [|exact Hall]. intros p [A [B C]]. eexists. split; [left; reflexivity|].
+      cbn [os_name os_vma os_size]. repeat split; try lia. symmetry. exact C.
+    - (* /DISCARD/ *)
+      cbn [exec_top_stmt]. split; [apply Forall_filter; exact Hn|]. split; [apply incl_filter|].
+      split.
+      + eexists. split; [reflexivity|]. apply incl_map. apply incl_filter.
+      + exists [], []. rewrite !app_nil_r. repeat split. constructor.
+    - cbn [exec_top_stmt]. destruct (eval_raw env ext st c) as [v|e0].
+      + destruct (v =? 0); apply top_post_same; try reflexivity; exact Hn.
+      + destruct e0; try destruct final; apply top_post_same; try reflexivity; exact Hn.
+  Qed.
+
+  Lemma top_fold_post body : forall st,
+    nonneg_sizes (l_remaining st) -> top_post st (fold_left (exec_top_stmt env senv ext final) body st).
+  Proof.
+    induction body as [|s r IH]; intros st Hn; simpl.
+    - apply top_post_same; try reflexivity; exact Hn.
+    - pose proof (top_stmt_post st s Hn) as H1. eapply top_post_trans; [exact H1|]. apply IH. apply H1.
+  Qed.
+
+  Lemma script_post script : forall st,
+    nonneg_sizes (l_remaining st) -> top_post st (exec_script env senv ext final script st).
+  Proof.
+    unfold exec_script. induction script as [|s r IH]; intros st Hn; simpl.
+    - apply top_post_same; try reflexivity; exact Hn.
+    - assert (H1 : top_post st (match s with
+                                | SSections body => fold_left (exec_top_stmt env senv ext final) body st
+                                | _ => exec_top_stmt env senv ext final st s end)).
+      { destruct s; try apply top_stmt_post; try exact Hn. apply top_fold_post. exact Hn. }
+      eapply top_post_trans; [exact H1|]. apply IH. apply H1.
+  Qed.
+End Placed.
+
+(* with pairwise different markers, nothing is both placed and discarded, or placed twice *)
+Lemma placed_not_discarded env senv ext final script st :
+  NoDup (all_markers st) ->
+  let st' := exec_script env senv ext final script st in
+  NoDup (all_markers st') /\
+  forall p, In p (l_placed st') -> ~ In (pl_marker p) (l_discarded st') /\
+                                   ~ In (pl_marker p) (map u_marker (l_remaining st')).
+Proof.
+  intros Hnd st'. assert (N : NoDup (all_markers st')).
+  { eapply Permutation_NoDup; [apply Permutation_sym; apply script_conserves | exact Hnd]. }
+  split; [exact N|]. intros p Hp. unfold all_markers in N.
+  assert (Hin : In (pl_marker p) (map pl_marker (l_placed st'))) by (apply in_map; exact Hp).
+  pose proof (nodup_app_disjoint _ _ (pl_marker p) N Hin) as Hd.
+  split; intro H; apply Hd; apply in_app_iff; auto.
+Qed.
+
+(* ====================================================================== *)
+(* examples                                                                *)
+(* ====================================================================== *)
+
+Lemma each_once_example :
+  let seg := c01_seg [c01_obj "a.o" []; c01_obj "m.o" [(".data", ".text")]] [".text"; ".data"] [".bss"]
+                     [(".data", [".data.x"])] in
+  WF_subgroups seg /\ WF_section_order seg (c01_obj "m.o" [(".data", ".text")]) /\
+  inputs_of_doc (c01_doc [c01_obj "a.o" []; c01_obj "m.o" [(".data", ".text")]] [".text"; ".data"] [".bss"]
+                         [(".data", [".data.x"])]) =
+  ["a.o(.text)"; "m.o(.text)"; "m.o(.data)"; "m.o(.data.x)"; "a.o(.data)"; "a.o(.data.x)"; "a.o(.bss)"; "m.o(.bss)"].
+Proof.
+  intro seg. split; [|split].
+  - unfold WF_subgroups, configured. simpl. split; [|split; [|split]].
+    + repeat constructor; simpl; intuition discriminate.
+    + repeat constructor; simpl; intuition.
+    + intros m [E|[]] H. subst m. simpl in H. intuition discriminate.
+    + exists (fun s => if String.eqb s ".data" then 1%nat else 0%nat). intros k others m Hl Hm.
+      destruct (String.eqb k ".data") eqn:E; [|discriminate]. inversion Hl; subst. destruct Hm as [Hm|[]]. subst m.
+      simpl. lia.
+  - unfold WF_section_order, configured. simpl. split; [repeat constructor; simpl; intuition|].
+    intros k d [E|[]]. inversion E; subst. auto.
+  - vm_compute. reflexivity.
+Qed.
+
+Lemma link_example :
+  exists w, gen_normal (c01_doc [c01_obj "a.o" []; c01_obj "b.o" []] [".text"; ".data"] [".bss"] []) c01_rt = Ok w /\
+    let st := layout (wo_script w) c09_universe [] in
+    map (fun p => (pl_marker p, pl_addr p, pl_outsec p)) (l_placed st) =
+      [("a_text", 0, ".s"); ("b_text", 10, ".s"); ("a_data", 16, ".s"); ("b_bss", 24, ".s.noload")] /\
+    l_remaining st = [] /\ l_discarded st = [].
+Proof. eexists. split; [vm_compute; reflexivity|]. vm_compute. repeat split; reflexivity. Qed.
